@@ -82,6 +82,15 @@ def decodeActuators (f : Frame) : List (Option Int) :=
   else if pgn f.id = hcuBankPgn1 then nones ++ bank
   else nones ++ nones
 
+/-- the arm of `encodeMotion` as a translated row: [wire type of the variant, emitter]
+(0 `lock`, 1 `unlock`, 2 `motion_reset`, 3 `drive_straight`, 4 `actuator_command`) -/
+def armRow : Motion → List Nat
+  | .stopAll => [motionTypeStopAll, 0]
+  | .resumeAll => [motionTypeResumeAll, 1]
+  | .resetAll => [motionTypeResetAll, 2]
+  | .straightDrive _ => [motionTypeStraightDrive, 3]
+  | .change _ => [motionTypeChange, 4]
+
 /-! ### Driver state machine as far as `tick`/`trigger` are concerned -/
 
 /-- command objects as the HCU sees them: a motion, or any other object kind (tag only) -/
